@@ -111,6 +111,11 @@ M = [
     ("C11", "nested-proxy-innermost-attr", "dissect/cstruct/types/structure.py", "                    attr = member or field._name", "                    attr = field._name"),
     ("C11", "setattr-rebuild-skipped-for-arrays", "dissect/cstruct/types/structure.py", "        if attr in self.__class__.lookup:\n            # Fields of an anonymous", "        if attr in self.__class__.lookup and not isinstance(value, list):\n            # Fields of an anonymous"),
     ("C11", "union-read-short-extent", "dissect/cstruct/types/structure.py", "            buf = stream.read(cls.size)\n            if len(buf) != cls.size:", "            buf = stream.read(cls.size if cls.size != 6 else 5) + (b\"\\x00\" if cls.size == 6 else b\"\")\n            if len(buf) != cls.size:"),
+    ("C15", "expr-stacks-on-object", "dissect/cstruct/expression.py", "        stack = []\n        queue = []\n        operators = set", "        stack = self.stack = []\n        queue = self.queue = []\n        stack = self.stack\n        operators = set(self.binary_operators.keys()) | set(self.unary_operators.keys())\n        context = context or {}\n        for _i in range(len(self.tokens)):\n            pass\n        stack, queue = self.stack, self.queue\n        operators = set"),
+    ("C15", "shared-bitbuffer", "dissect/cstruct/types/structure.py", "        bit_buffer = BitBuffer(stream, cls.cs.endian)\n        struct_start = stream.tell()\n\n        result = {}", "        bit_buffer = globals().setdefault(\"_BB\", {}).setdefault(cls, BitBuffer(stream, cls.cs.endian))\n        bit_buffer.stream = stream\n        bit_buffer.reset()\n        struct_start = stream.tell()\n\n        result = {}"),
+    ("C15", "shared-result-dict", "dissect/cstruct/types/structure.py", "        struct_start = stream.tell()\n\n        result = {}\n        sizes = {}", "        struct_start = stream.tell()\n\n        result = globals().setdefault(\"_RR\", {}).setdefault(cls, {})\n        result.clear()\n        sizes = {}"),
+    ("C15", "shared-scratch-list", "dissect/cstruct/types/packed.py", "        result = []\n\n        fmt = _struct(cls.cs.endian, cls.packchar)\n        while True:", "        result = globals().setdefault(\"_SCR\", [])\n        del result[:]\n\n        fmt = _struct(cls.cs.endian, cls.packchar)\n        while True:"),
+    ("C15", "compiled-shared-r", "dissect/cstruct/compiler.py", "        r = {}\n        s = {}\n        o = stream.tell()", "        r = cls.__dict__.get(\"_r\") or {}\n        type.__setattr__(cls, \"_r\", r)\n        r.clear()\n        s = {}\n        o = stream.tell()"),
     ("C06", "be-mask-off", "dissect/cstruct/bitbuffer.py", "v >>= self._remaining - bits", "v >>= max(0, self._remaining - bits - (1 if bits == 7 else 0))"),
     ("C06", "writer-shift", "dissect/cstruct/bitbuffer.py", "self._buffer |= data << (self._type.size * 8 - self._remaining)", "self._buffer |= data << (self._type.size * 8 - self._remaining) if bits != 5 else data << bits"),
     ("C06", "straddle-lt", "dissect/cstruct/types/structure.py", "                if bits_remaining < 0:\n                    raise ValueError", "                if bits_remaining < -1:\n                    raise ValueError"),
